@@ -372,7 +372,30 @@ func checkC08(p *Program, r *Report) {
 		}
 		bad := ""
 		n := 0
-		bf := &bodyFlow{m: m, base: m.baseOf(h)}
+		handsOn := func(c *ssa.Call) bool {
+			callee := m.calleeOnBase(c, m.baseOf(h))
+			if callee == nil || m.evalRole(c, m.baseOf(h)) != "" {
+				return false
+			}
+			runs := false
+			for _, e := range va.events[callee] {
+				if e.role == "stmt" {
+					runs = true
+				}
+			}
+			if !runs {
+				return false
+			}
+			for _, a := range c.Call.Args {
+				if cat, sl := m.nm.catOf(a.Type()); cat == "Stmt" && !sl {
+					if _, _, isField := fieldLoad(a); isField {
+						return true
+					}
+				}
+			}
+			return false
+		}
+		bf := &bodyFlow{m: m, base: m.baseOf(h), handsOn: handsOn}
 		bBefore, _ := runForward[bool](h, bf)
 		for _, e := range va.events[h] {
 			if e.role != "stmt" {
@@ -381,6 +404,16 @@ func checkC08(p *Program, r *Report) {
 			n++
 			if bBefore[e.call] {
 				bad = "the body " + normIdx(strings.Join(e.operands, "|")) + " can run although another branch body already ran on the same path"
+			}
+		}
+		for _, b := range h.Blocks {
+			for _, in := range b.Instrs {
+				if c, ok := in.(*ssa.Call); ok && handsOn(c) {
+					n++
+					if bBefore[c] {
+						bad = "a branch body (run through " + staticCallee(c).Name() + ") can run although another branch body already ran on the same path"
+					}
+				}
 			}
 		}
 		r.Check(bad == "" && n >= 2, "C08.R6", k+"|one-body", p.Pos(h.Pos()), fmt.Sprintf("%d branch bodies, at most one on any path", n), bad)
@@ -587,6 +620,9 @@ func (m *vmModel) storesNilToDefers(fn *ssa.Function) bool {
 type bodyFlow struct {
 	m    *vmModel
 	base ssa.Value
+	// handsOn: the call passes a statement of the node to a function of the record that runs the statement it is handed
+	// (`runBlockStmt(env, stmt.Then)`): a branch body run through a helper
+	handsOn func(c *ssa.Call) bool
 }
 
 func (f *bodyFlow) Entry() bool      { return false }
@@ -595,7 +631,7 @@ func (f *bodyFlow) Join(a, b bool) (bool, bool) {
 	return a || b, (a || b) != a
 }
 func (f *bodyFlow) Instr(in ssa.Instruction, s bool) bool {
-	if c, ok := in.(*ssa.Call); ok && f.m.evalRole(c, f.base) == "stmt" {
+	if c, ok := in.(*ssa.Call); ok && (f.m.evalRole(c, f.base) == "stmt" || (f.handsOn != nil && f.handsOn(c))) {
 		return true
 	}
 	return s
